@@ -495,6 +495,43 @@ example : ((observerI ⟨.raises, .raises, .raises⟩ rerunRule
       (fun kv => kv.2.length)) = [1] := by
   decide
 
+/-! ### "for a disabled rule: nothing" through the configuration glue -/
+
+/-- after any history of `dr.set_enabled` and configurations, the LATEST configuration alone decides whether a
+loaded rule is enabled: its last entry that matches the rule's name (exact name, or prefix when no loaded component
+carries exactly that name), and its default when no entry matches — earlier configurations do not matter -/
+theorem config_latest_decides (cs : List Config) (c : Config) (r : Rule) :
+    (configure (cs ++ [c]) r).enabled = lastEnabled c.defaultEnabled r.name c.defaultEnabled c.entries := by
+  have h1 : configure (cs ++ [c]) r = applyConfig c (configure cs r) := by simp [configure, List.foldl_append]
+  have h2 : ∀ q : Rule, (applyConfig c q).enabled = lastEnabled c.defaultEnabled q.name c.defaultEnabled c.entries := by
+    intro q; unfold applyConfig; rw [foldl_applyEntry_enabled]
+  rw [h1, h2, configure_name]
+
+/-- a rule whose last matching entry in the latest configuration says `enabled: false` leaves no trace in any
+evaluation, whatever was configured or set before and whatever the later entries (not matching it) say -/
+theorem disabled_by_config_nothing (env : Env) (present : List Comp) (cs : List Config) (dflt : Bool)
+    (es es' : List ConfEntry) (e : ConfEntry) (r : Rule)
+    (hm : entryMatches e r.name = true) (he : e.enabled = some false)
+    (hrest : ∀ x ∈ es', entryMatches x r.name = false) :
+    classify env present (configure (cs ++ [⟨dflt, es ++ [e] ++ es'⟩]) r) = .nothing := by
+  apply (nothing_iff env present _).mpr
+  left
+  rw [config_latest_decides]
+  simp only
+  rw [lastEnabled_append_list, lastEnabled_no_match _ _ _ _ hrest, lastEnabled_append]
+  simp [hm, he]
+
+/-- a rule that the latest configuration does not name has that configuration's default -/
+theorem unnamed_keeps_default (cs : List Config) (c : Config) (r : Rule)
+    (h : ∀ e ∈ c.entries, entryMatches e r.name = false) : (configure (cs ++ [c]) r).enabled = c.defaultEnabled := by
+  rw [config_latest_decides, lastEnabled_no_match _ _ _ _ h]
+
+example : (configure [⟨true, [⟨"pkg.mod.".toList, false, some false, none, none⟩]⟩,
+                       ⟨true, [⟨"pkg.mod.report".toList, true, some false, some ["t".toList], none⟩,
+                               ⟨"pkg.other".toList, false, some true, none, none⟩]⟩] rerunRule).enabled = false := by decide
+example : entryMatches ⟨"pkg.mod.rep".toList, true, some false, none, none⟩ rerunRule.name = false ∧
+    entryMatches ⟨"pkg.mod.rep".toList, false, some false, none, none⟩ rerunRule.name = true := by decide
+
 /-! ### get_response -/
 
 /-- what `get_response()` puts under every heading, for every reachable evaluator state: the analysis block; the
